@@ -465,7 +465,7 @@ def get_attr(I, obj, name):
         if isinstance(o, type) and o is bytes:
             return VFunc('bytes.' + name, selfv=None)
         if isinstance(o, _re.Pattern):
-            return VFunc('re.Pattern.' + name, selfv=obj)
+            return VFunc(name, selfv=obj)
         import logging as _logging
         if isinstance(o, _logging.Logger):
             return VFunc(name, selfv=obj)
@@ -1894,27 +1894,39 @@ def dict_method(I, recv, name, args, kwargs):
 # ---------------------------------------------------------------------------
 # re
 # ---------------------------------------------------------------------------
+def pattern_key(pattern):
+    import hashlib
+    return hashlib.sha1((pattern.pattern if isinstance(pattern.pattern, str)
+                         else pattern.pattern.decode('latin-1')).encode('utf-8')).hexdigest()[:10]
+
+
+def match_functions(pattern, how):
+    """the result of pattern.<how>(s) as uninterpreted FUNCTIONS of the subject string: searching
+    the same string twice gives the same answer, and contracts can refer to the result"""
+    k = 're_%s_%s' % (how, pattern_key(pattern))
+    S, Int, B = z3.StringSort(), z3.IntSort(), z3.BoolSort()
+    return (z3.Function(k + '_nomatch', S, B), z3.Function(k + '_start', S, Int, Int),
+            z3.Function(k + '_end', S, Int, Int), z3.Function(k + '_none', S, Int, B))
+
+
 def new_match(I, string, pattern, tag):
-    ng = pattern.groups if pattern is not None else z3.Int(fresh_name('ngroups'))
-    t = fresh_name('m_' + tag)
-    st = z3.Function(t + '_start', z3.IntSort(), z3.IntSort())
-    en = z3.Function(t + '_end', z3.IntSort(), z3.IntSort())
-    isn = z3.Function(t + '_none', z3.IntSort(), z3.BoolSort())
-    m = VMatch(string, ng, st, en, isn, dict(pattern.groupindex) if pattern is not None else {}, t)
+    nomatch, fst, fen, fnone = match_functions(pattern, tag)
+    ng = pattern.groups
+    st = lambda g: fst(string, g if not isinstance(g, int) else z3.IntVal(g))     # noqa: E731
+    en = lambda g: fen(string, g if not isinstance(g, int) else z3.IntVal(g))     # noqa: E731
+    isn = lambda g: fnone(string, g if not isinstance(g, int) else z3.IntVal(g))  # noqa: E731
+    m = VMatch(string, ng, st, en, isn, dict(pattern.groupindex), tag)
+    m.nomatch = nomatch(string)
     n = z3.Length(string)
-    g = z3.Int(t + '_g')
-    ngt = z3.IntVal(ng) if isinstance(ng, int) else ng
-    I.assume(z3.Not(isn(0)))
-    if isinstance(ng, int) and ng <= 12:
+    done = I.ghost.setdefault('match_axioms', set())
+    ck = (tag, pattern_key(pattern), string.get_id())
+    if ck not in done:
+        done.add(ck)
+        I.assume(z3.Not(isn(0)))
         for k in range(ng + 1):
             I.assume(z3.If(isn(k), z3.And(st(k) == -1, en(k) == -1),
                            z3.And(0 <= st(k), st(k) <= en(k), en(k) <= n,
                                   st(0) <= st(k), en(k) <= en(0))))
-    else:
-        I.assume(z3.ForAll([g], z3.Implies(z3.And(g >= 0, g <= ngt),
-                 z3.If(isn(g), z3.And(st(g) == -1, en(g) == -1),
-                       z3.And(0 <= st(g), st(g) <= en(g), en(g) <= n,
-                              st(0) <= st(g), en(g) <= en(0))))))
     return m
 
 
@@ -1971,8 +1983,8 @@ def pattern_method(I, pat, name, args, kwargs):
             I.assume(m.start(0) == 0)
         if name == 'fullmatch':
             I.assume(z3.And(m.start(0) == 0, m.end(0) == z3.Length(s)))
+        isnone = m.nomatch
         fact = I.vc.regex_fact(I, pat, name, s, m)
-        isnone = z3.Bool(fresh_name('nomatch'))
         if fact is not None:
             I.assume(fact(isnone))
         return VOpt(isnone, m)
